@@ -258,6 +258,19 @@ def _a1():
     for on, f in mdt.items():
         _reg("A1", f"mixdt.{on}/i32_f32", functools.partial(P, f, [((3,), I32), ((3,), F32)]))
         _reg("A1", f"mixdt.{on}/f32_i32", functools.partial(P, f, [((3,), F32), ((3,), I32)]), tier="thorough")
+    # double-precision mode with an EXPLICIT float32 cast in the callable: JAX (x64) keeps float32 for
+    # f32 * python-scalar / f32 * float32-constant; a constant promoted to double next to it is ill-typed
+    dbl = {
+        "astype32_mul_py": (lambda x: x.astype(jnp.float32) * 0.5, [((3,), F32)]),
+        "astype32_mul_np32": (lambda x: x.astype(jnp.float32) * np.float32(0.5), [((3,), F32)]),
+        "astype32_add_arr32": (lambda x: x.astype(jnp.float32) + np.array([0.1, 0.2, 0.3], dtype=np.float32), [((3,), F32)]),
+        "astype32_mul_x": (lambda x: x.astype(jnp.float32) * x, [((3,), F32)]),
+        "int_to_f32_mul_py": (lambda i: i.astype(jnp.float32) * 0.5, [((3,), I32)]),
+        "astype32_where": (lambda x: jnp.where(x > 0, x.astype(jnp.float32), 0.5), [((3,), F32)]),
+        "astype16_mul_py": (lambda x: x.astype(jnp.float16) * 0.5, [((3,), F32)]),
+    }
+    for name, (fn, specs) in dbl.items():
+        _reg("A1", f"dbl.{name}", functools.partial(P, fn, specs, config={"enable_double_precision": True}))
     # python-scalar operands on either side
     for on, f in {"rpow": lambda x: 0.5 ** x, "pow2": lambda x: x ** 2.0, "rsub": lambda x: 1.0 - x, "rdiv": lambda x: 2.0 / x, "rmax": lambda x: jnp.maximum(0.25, x), "rwhere": lambda x: jnp.where(x > 0, 1.0, x)}.items():
         for cn, sh in {"B3": ("B", 3), "23": (2, 3)}.items():
